@@ -42,6 +42,7 @@ def load_reviewed():
 class Inventory:
     def __init__(self, mir, roots, stop=()):
         self.mir = mir
+        self.roots_ = set(roots)
         self.reach = []
         self.edges = {}
         self.unresolved = []
@@ -137,6 +138,69 @@ class Inventory:
         self.mir._impl_index = idx
         return idx
 
+    def _caller_intervals(self, n):
+        c = getattr(self, "_anc", None)
+        if c is None:
+            c = self._anc = {}
+        if n not in c:
+            try:
+                c[n] = absint.Intervals(self.mir.body(n), self.mir, assume=self.param_ranges(n, _depth=1))
+            except Exception:
+                c[n] = False
+        return c[n]
+
+    def param_ranges(self, fn, _depth=0):
+        """intervals of the integer parameters of `fn`, as the union over its call sites inside the analysed call graph
+        (a private helper is only ever entered with the values its callers pass) - {} when fn is a root, is used as a
+        function value, has no call site in the graph, or an argument cannot be bounded"""
+        if fn in getattr(self, "roots_", ()) or _depth > 2:
+            return {}
+        b = self.mir.body(fn)
+        if b is None or "{closure" in fn:
+            return {}
+        sites = []
+        for n in self.reach:
+            if n == fn:
+                continue
+            cb = self.mir.body(n)
+            if cb is None:
+                continue
+            for bl in cb.blocks:
+                for st in bl["stmts"]:
+                    if st["k"] == "assign":
+                        for c in _fn_consts(st["rv"]):
+                            if fn in (c.get("def"), (c.get("resolved") or {}).get("def")):
+                                return {}
+            for bb, t in cb.calls():
+                d, rd, ga, f2 = callee(t)
+                if fn in (d, rd):
+                    sites.append((n, bb, t))
+        if not sites:
+            return {}
+        out = {}
+        for i in range(1, b.argc + 1):
+            ty = b.locals[i].get("ty", "")
+            if absint.ty_range(ty) is None:
+                continue
+            lo, hi = None, None
+            ok = True
+            for n, bb, t in sites:
+                an = self._caller_intervals(n) if _depth == 0 else None
+                iv = None
+                if an:
+                    try:
+                        iv = an.value_at_exit(bb, t["args"][i - 1])
+                    except Exception:
+                        iv = None
+                if iv is None:
+                    ok = False
+                    break
+                lo = iv[0] if lo is None else min(lo, iv[0])
+                hi = iv[1] if hi is None else max(hi, iv[1])
+            if ok and lo is not None:
+                out[("l", i)] = (lo, hi)
+        return out
+
     def sites(self):
         """[(function, kind, what, ordinal, line, discharged, detail)]"""
         out = []
@@ -162,7 +226,7 @@ class Inventory:
                         continue
                     if an is None:
                         try:
-                            an = absint.Intervals(b, self.mir)
+                            an = absint.Intervals(b, self.mir, assume=self.param_ranges(n))
                         except Exception as e:  # analysis failure = not discharged
                             an = False
                     ok = False
@@ -261,6 +325,33 @@ def auto_discharge(mir, site_fn, b, bb, t):
                     lo, hi = 0, n
             if lo is not None and 0 <= lo <= hi <= n:
                 return "constant range %d..%d inside a fixed-size array of %d elements" % (lo, hi, n)
+    if re.search(r"Vec::<T(, A)?>::resize$", name) and len(args) >= 2:
+        # the new length is computed from lengths of data already in memory and constants only (through integer-only helpers)
+        def in_memory(o, depth=0):
+            if depth > 12 or not isinstance(o, tuple) or not o:
+                return False
+            k = o[0]
+            if k == "const":
+                return True
+            if k in ("ref", "deref"):
+                return in_memory(o[1], depth + 1)
+            if k == "cast":
+                return in_memory(o[4], depth + 1)
+            if k == "field" and o[1][0] == "bin":
+                return in_memory(o[1], depth + 1)
+            if k == "bin":
+                return in_memory(o[2], depth + 1) and in_memory(o[3], depth + 1)
+            if k == "un":
+                return in_memory(o[2], depth + 1)
+            if k == "call":
+                if re.search(r"::len$", o[1] or ""):
+                    return True
+                cb = mir.bodies.get(o[2] or o[1] or "")
+                if cb is not None and not cb.get("coroutine") and all(absint.ty_range(cb["locals"][i].get("ty", "")) is not None for i in range(1, cb["argc"] + 1)):
+                    return all(in_memory(a, depth + 1) for a in o[3])
+            return False
+        if in_memory(args[1]):
+            return "new length is computed from the length of data already in memory and constants"
     if re.search(r"BufMut::(put_slice|put_bytes|put_u8|put)$", name):
         if ga and ("alloc::vec::Vec<u8>" in ga[0] or "BytesMut" in ga[0]):
             return "Vec<u8>/BytesMut grow on demand (remaining_mut is unbounded)"
